@@ -49,6 +49,7 @@ type c01World struct {
 	collBarrier chan *model.BarrierSignal
 	partBarrier chan *model.BarrierSignal
 	srcVCh      string
+	posCh       string // channel named by the source message positions (vchannel, or the physical channel)
 	srcColl     int64
 	srcPart     int64
 	tgtPartID   int64
@@ -91,7 +92,10 @@ func c01NewWorld(allowDropped bool) *c01World {
 
 func (w *c01World) build(kind string, i int, ts uint64) *c01In {
 	in := &c01In{kind: kind, ts: ts, id: "m" + string(rune('0'+i)), partID: w.srcPart, part: "p", rows: 2}
-	pos := rPos(w.srcVCh, in.id, ts)
+	if w.posCh == "" {
+		w.posCh = w.srcVCh
+	}
+	pos := rPos(w.posCh, in.id, ts)
 	switch kind {
 	case "Insert":
 		in.msg = rInsert(w.srcColl, w.srcPart, "p", w.srcVCh, ts, pos, 2)
